@@ -358,18 +358,51 @@ fn run_job(job: &Job) -> JobResult {
 
 /// The real binary, free-running (no scheduler).
 fn run_real(job: &Job) -> Result<(), String> {
-    let inputs = write_inputs(job, &format!("r{:?}", std::thread::current().id()).replace(['(', ')'], ""));
-    let out = format!("{}/real-{:?}.fst", workdir(), std::thread::current().id()).replace(['(', ')'], "");
+    run_real_variant(job, 0)?;
+    // the output path already holds a longer file; the first input arrives through a pipe
+    run_real_variant(job, 1)?;
+    run_real_variant(job, 2)
+}
+
+/// variant 0: fresh output path, inputs are regular files; 1: the output path
+/// exists and holds 8 KiB of other data (--force); 2: the first input is
+/// /dev/stdin fed by a pipe (size 0 when stat'ed, not seekable).
+fn run_real_variant(job: &Job, variant: u8) -> Result<(), String> {
+    use std::io::Write;
+    let tid = format!("{:?}", std::thread::current().id()).replace(['(', ')'], "");
+    let mut inputs = write_inputs(job, &format!("r{}", tid));
+    let out = format!("{}/real-{}-{}.fst", workdir(), tid, variant);
+    let _ = std::fs::remove_file(&out);
+    if variant == 1 {
+        std::fs::write(&out, vec![0xa5u8; 8192]).map_err(|e| format!("machinery: {}", e))?;
+    }
+    let mut piped: Option<Vec<u8>> = None;
+    if variant == 2 {
+        piped = Some(std::fs::read(&inputs[0]).map_err(|e| format!("machinery: {}", e))?);
+        inputs[0] = "/dev/stdin".into();
+    }
     let args = cli_args(job, &inputs, &out, false);
-    let o = std::process::Command::new(real_bin())
+    let mut child = std::process::Command::new(real_bin())
         .args(&args[1..])
         .env("TMPDIR", workdir())
-        .output()
+        .stdin(if piped.is_some() { std::process::Stdio::piped() } else { std::process::Stdio::null() })
+        .stdout(std::process::Stdio::piped())
+        .stderr(std::process::Stdio::piped())
+        .spawn()
         .map_err(|e| format!("machinery: cannot run {}: {}", real_bin(), e))?;
-    if !o.status.success() {
-        return Err(format!("real binary exited with {:?}: {}", o.status.code(), String::from_utf8_lossy(&o.stderr)));
+    if let Some(data) = piped {
+        let mut si = child.stdin.take().unwrap();
+        let _ = si.write_all(&data);
+        drop(si);
     }
-    check_output(job, &out).map(|_| ())
+    let o = child.wait_with_output().map_err(|e| format!("machinery: {}", e))?;
+    let what = ["", " (existing longer output file, --force)", " (first input through /dev/stdin from a pipe)"][variant as usize];
+    if !o.status.success() {
+        return Err(format!("real binary exited with {:?}{}: {}", o.status.code(), what, String::from_utf8_lossy(&o.stderr)));
+    }
+    let r = check_output(job, &out).map(|_| ()).map_err(|e| format!("{}{}", e, what));
+    let _ = std::fs::remove_file(&out);
+    r
 }
 
 // ---------------------------------------------------------------------------
@@ -930,7 +963,7 @@ fn main() {
             }
         });
         let n = cnt.load(std::sync::atomic::Ordering::SeqCst);
-        st.count("real_binary_free_running_runs", n);
+        st.count("real_binary_free_running_runs", 3 * n);
         st.evals += n;
         let e = scopes.entry("real-binary-free-running (uncontrolled schedules, not an enumeration)".into()).or_insert((0, 0));
         e.0 += 1;
@@ -949,7 +982,7 @@ fn main() {
         tier,
         st,
         &rep,
-        "SCHED: the real cmd::map::run / cmd::set::run (merge.rs, util.rs, app.rs included by path) run in-process; every channel send/receive, spawn and thread exit is a scheduling point; for each listed (input, batch size, fd-limit, threads, merge mode) ALL interleavings are explored with happens-before state caching; additionally, for some configurations, every schedule with at most k deviations from the default schedule (k = 1..3, delay bounding) is explored statelessly (no cache, hence no assumption about shared state); in every complete execution: exit Ok, no deadlock, every temp file created once, output opens, verifies, conforms to the v3 format (independent decoder), content == model merge (sum/max/min per key over all rows; distinct lines for sets), bytes identical across all schedules; configuration grid under the default schedule: every row sequence of length <= 3 (thorough 4) over {a,1 a,2 b,1 b,2} (sets: {a,b,ab}) x batch 1..R x fd-limit 2..4 x threads 1..4 x 3 modes x one/two/three input files (incl. an empty file in first, middle and last position); input files without a final newline; rounds of 60..260 batches (default schedule; deadlocks are detected as 'no enabled thread'); many-batches family: 5..24 (thorough 40) rows with batch size 1 x fd-limit 2..4 x threads {1,2,4,8,16} with distinct keys, keys repeated in three batches (3 modes) and line sets; plus byte identity with the --sorted build and a library build for inputs without repeated keys; the real binary free-running on a subset. non-trivial = distinct happens-before states of explored configurations".into(),
+        "SCHED: the real cmd::map::run / cmd::set::run (merge.rs, util.rs, app.rs included by path) run in-process; every channel send/receive, spawn and thread exit is a scheduling point; for each listed (input, batch size, fd-limit, threads, merge mode) ALL interleavings are explored with happens-before state caching; additionally, for some configurations, every schedule with at most k deviations from the default schedule (k = 1..3, delay bounding) is explored statelessly (no cache, hence no assumption about shared state); in every complete execution: exit Ok, no deadlock, every temp file created once, output opens, verifies, conforms to the v3 format (independent decoder), content == model merge (sum/max/min per key over all rows; distinct lines for sets), bytes identical across all schedules; configuration grid under the default schedule: every row sequence of length <= 3 (thorough 4) over {a,1 a,2 b,1 b,2} (sets: {a,b,ab}) x batch 1..R x fd-limit 2..4 x threads 1..4 x 3 modes x one/two/three input files (incl. an empty file in first, middle and last position); input files without a final newline; rounds of 60..260 batches (default schedule; deadlocks are detected as 'no enabled thread'); many-batches family: 5..24 (thorough 40) rows with batch size 1 x fd-limit 2..4 x threads {1,2,4,8,16} with distinct keys, keys repeated in three batches (3 modes) and line sets; plus byte identity with the --sorted build and a library build for inputs without repeated keys; the real binary free-running on a subset, each configuration three ways: fresh output path; an existing, longer output file (--force); the first input through /dev/stdin fed by a pipe. non-trivial = distinct happens-before states of explored configurations".into(),
         vec![
             "threads of merge.rs interact only through the channels (immutable Arcs otherwise); files are written by one batch and read only in later generations; checked by the unique-file-name trace".into(),
             "two prefixes with equal per-thread histories (incl. identities of received messages) are the same Mazurkiewicz trace and have the same futures".into(),
